@@ -41,6 +41,7 @@ type CfgSpec struct {
 	Filters        []FilterSpec    `json:"filters"`
 	TriggerRules   json.RawMessage `json:"triggerRules,omitempty"`
 	AllowUnmatched bool            `json:"allowUnmatched"`
+	LogLevel       string          `json:"logLevel"` // log_level of the configuration ("" = error); the logging unit is set up as cmd/main.go does
 	Env            string          `json:"env"`      // request envelope of every request of the scenario (see applyEnvelope); "" = plain GET over https
 	Replicas       int             `json:"replicas"` // service instances built from this one configuration (default 1); they share Redis and the provider, nothing else
 }
